@@ -877,12 +877,12 @@ fn prepass(src: &str) -> String {
                 if be > last_start { continue; }
                 let mut tailtxt = String::from(" }");
                 for (es, ee) in el.iter().skip(1) {
-                    tailtxt.push_str(&format!(" {{ let {} = {}; {} }}", &src[ps..pe], &src[*es..*ee], strip_comments_one_line(&src[bs..be])));
+                    tailtxt.push_str(&format!(" {{ let {} = {}; {} }}", &src[ps..pe], strip_comments_one_line(&src[*es..*ee]), strip_comments_one_line(&src[bs..be])));
                 }
                 out.insert_str(be, &tailtxt);
                 // header `for P in [..]` -> `{ let P = e1;` keeping the line structure of the header
                 let nl = src[fs..bs].matches('\n').count();
-                let head = format!("{{ let {} = {}; {}", &src[ps..pe], &src[el[0].0..el[0].1], "\n".repeat(nl));
+                let head = format!("{{ let {} = {}; {}", &src[ps..pe], strip_comments_one_line(&src[el[0].0..el[0].1]), "\n".repeat(nl));
                 out.replace_range(fs..bs, &head);
                 last_start = fs;
             }
